@@ -97,6 +97,7 @@ def check(ctx):
     else:
         ctx.undecided('SIB', 'unpack_sections / unpack_lots agree on the range skeleton', 'one skeleton not recognised')
     ctx.attempt(_routes)
+    ctx.attempt(every_match_registers, rule='TBL')
     ctx.attempt(_sibling_through)
     ctx.attempt(_siblings_and_resets)
     from .c06 import ilots_after_l          # 'integer lot numbers' of the statement
@@ -106,6 +107,73 @@ def check(ctx):
         ctx.ok('RX-FLAGS', 'unpackers: no compiled regex is re-applied by its bare pattern text')
     ctx.attempt(forward.check_all, module_suffixes=('unpack.unpackers', 'tract.tract_parse', 'plssdesc.plss_parse'))
     ctx.attempt(common.embedded_case_consistency, modules=('rgxlib.misc', 'rgxlib.sec', 'rgxlib.lots'))
+
+
+def every_match_registers(ctx, rule='EXC'):
+    """The unpackers' scan loops register at least one number for every
+    section / lot reference they consume; the callers rely on it (`sec_nums[0]`,
+    `','.join(...)`, one tract per list entry).  A `continue` that leaves an
+    iteration before anything was appended makes an empty result possible:
+    IndexError in SecFinder, or a description that silently yields no tract."""
+    n = 0
+    for spec, lst in (('SecUnpacker.unpack_sections', 'working_sec_list'), ('LotUnpacker.unpack_lots', 'working_lot_list')):
+        try:
+            fi = ctx.repo.func(spec)
+        except AnalysisError:
+            continue
+        loops = [x for x in fi.node.body if isinstance(x, (ast.While, ast.For))]
+        for loop in loops:
+            appends = [c for c in ast.walk(loop) if isinstance(c, ast.Call) and isinstance(c.func, ast.Attribute)
+                       and c.func.attr in ('append', 'extend', 'insert') and isinstance(c.func.value, ast.Name)
+                       and c.func.value.id.endswith('_list')]
+            if not appends:
+                continue
+            n += 1
+            bad = []
+            for cont in ast.walk(loop):
+                if not isinstance(cont, ast.Continue):
+                    continue
+                # anything appended earlier in this iteration on the way to the `continue`?
+                st, seen = cont, False
+                while st is not loop:
+                    par = st._parent
+                    for field in ('body', 'orelse'):
+                        blk = getattr(par, field, None)
+                        if isinstance(blk, list) and st in blk:
+                            for prev in blk[:blk.index(st)]:
+                                if any(a is x for a in appends for x in ast.walk(prev)) and not isinstance(prev, (ast.If, ast.For, ast.While)):
+                                    seen = True
+                    st = par
+                if not seen:
+                    bad.append(cont)
+            # who indexes the result without knowing it is non-empty?
+            from ..srcmodel import facts_at
+            attr = 'sec_list' if 'Sec' in spec else 'lot_list'
+            consumers = []
+            for f2 in ctx.repo.funcs.values():
+                bound = {t.id for a_ in walk_local(f2.node) if isinstance(a_, ast.Assign) and isinstance(a_.value, ast.Attribute)
+                         and a_.value.attr == attr for t in a_.targets if isinstance(t, ast.Name)}
+                for sub in walk_local(f2.node):
+                    if isinstance(sub, ast.Subscript) and isinstance(sub.slice, ast.Constant) and isinstance(sub.slice.value, int) \
+                            and ((isinstance(sub.value, ast.Name) and sub.value.id in bound)
+                                 or (isinstance(sub.value, ast.Attribute) and sub.value.attr == attr)):
+                        nm = norm(sub.value)
+                        known = any((txt == nm and pol) or (txt in (f"len({nm}) > 0", f"len({nm}) >= 1") and pol)
+                                    or (txt in (f"len({nm}) == 0", f"not {nm}") and not pol) for _e, txt, pol in facts_at(sub))
+                        if not known:
+                            consumers.append(f"{f2.qualname}: `{norm(sub)}`")
+            if bad and not consumers:
+                ctx.undecided(rule, f"{spec}: every consumed reference registers a number",
+                              f"`continue` at line {bad[0].lineno} can leave the result empty; no unguarded index on .{attr} found")
+                continue
+            ctx.check(not bad, rule, f"{spec}: every consumed reference registers a number",
+                      detail_bad=f"the `continue` at line {bad[0].lineno if bad else 0} leaves the iteration before anything was appended "
+                                 f"to the result: a reference whose only number is skipped gives an EMPTY list, and the callers "
+                                 f"index it ({'; '.join(consumers[:2])}) or build one tract per entry - IndexError, or a "
+                                 f"description with no tract at all", key=f"{rule}|{spec}|skip-before-append",
+                      where=common.loc(fi, bad[0]) if bad else None)
+    if n == 0:
+        ctx.undecided(rule, 'unpackers: every consumed reference registers a number', 'scan loops not recognised')
 
 
 def _helpers(ctx, multisec, multilot):
